@@ -548,6 +548,7 @@ def run(ctx) -> Result:
                 res.count("nlopt-kkt-repeat:" + algo)
                 check_runs(res, runs, "opt", batch)
     termination_family_stream(res, ctx)
+    doe_reexecution_stream(res, ctx)
     res.extra["algorithms_skipped_unsuited_or_unconfigurable"] = sorted(set(skipped))[:60]
     compare_with_model(res, batch)
     return res
@@ -601,6 +602,76 @@ def termination_family_stream(res: Result, ctx) -> None:
                 )
 
 
+def _f_exact(x):
+    return (x[0] - 1.0) ** 2 + 2.0 * (x[1] + 0.5) ** 2 + 0.5 * x[0] * x[1]
+
+
+def doe_reexecution_case(samples_per_run: list, n_processes: int) -> dict[str, Any]:
+    """Successive CustomDOE executions on ONE problem (same database): each distinct generated sample is
+    evaluated once over the whole history and recorded, in generation order, with ITS outputs."""
+    from gemseo.algos.doe.factory import DOELibraryFactory
+
+    out: dict[str, Any] = {"samples": samples_per_run, "n_processes": n_processes}
+    with tracing() as tr:
+        pb = make_problem("ineq", tr)
+        try:
+            for smp in samples_per_run:
+                DOELibraryFactory().execute(pb, algo_name="CustomDOE", samples=np.array(smp, dtype=float),
+                                            n_processes=n_processes, enable_progress_bar=False)
+        except Exception as e:  # noqa: BLE001
+            out["raised"] = f"{type(e).__name__}: {str(e)[:120]}"
+        out["db"] = [[[float(t) for t in k.unwrap()], {n: (np.asarray(v).ravel().tolist() if not n.startswith("@") else None) for n, v in vals.items()}]
+                     for k, vals in pb.database.items() if vals]
+        vcalls = [(nme, p) for (nme, k, p) in tr.calls if k == "v"]
+        out["dup_calls"] = len(vcalls) - len(set(vcalls))
+    return out
+
+
+def doe_reexecution_oracle(out) -> list[tuple[str, str]]:
+    bad = []
+    if out.get("raised"):
+        return [("doe-reexecution-raises", f"successive DOE executions raised {out['raised']}")]
+    flat = [tuple(float(t) for t in row) for smp in out["samples"] for row in smp]
+    expected = list(dict.fromkeys(flat))
+    keys = [tuple(k) for k, _ in out["db"]]
+    if keys != expected:
+        bad.append(("doe-reexecution-order", f"after {len(out['samples'])} DOE executions (n_processes={out['n_processes']}) the database holds {keys}, expected the distinct generated samples in generation order {expected}"))
+    for k, vals in out["db"]:
+        fx = _f_exact(k)
+        got = (vals.get("f") or [None])[0]
+        if got is None or not abs(got - fx) <= 1e-12 * max(1.0, abs(fx)):
+            bad.append(("doe-reexecution-values", f"entry {k} holds f={got}, but f({k}) = {fx} (n_processes={out['n_processes']})"))
+            break
+        g = (vals.get("g") or [None])[0]
+        if g is None or not abs(g - (k[0] + k[1] - 1.0)) <= 1e-12:
+            bad.append(("doe-reexecution-values", f"entry {k} holds g={g}, but g({k}) = {k[0] + k[1] - 1.0} (n_processes={out['n_processes']})"))
+            break
+    if out["n_processes"] == 1 and out["dup_calls"]:
+        bad.append(("doe-reexecution-twice", "a distinct sample was evaluated more than once over successive sequential DOE executions"))
+    return bad
+
+
+def doe_reexecution_stream(res: Result, ctx) -> None:
+    rng = ctx.rng
+    grid = [-1.5, -1.0, -0.5, 0.0, 0.5, 1.0, 1.5]
+    n_cases = 40 if ctx.thorough else 10
+    for i in range(n_cases):
+        pool = [[rng.pick(grid), rng.pick(grid)] for _ in range(6)]
+        runs = []
+        for _ in range(rng.pick([2, 2, 3])):
+            runs.append([rng.pick(pool) for _ in range(rng.pick([2, 3, 4, 5]))])
+        n_proc = 1 if i % 2 == 0 else 2
+        out = doe_reexecution_case(runs, n_proc)
+        res.evaluations += 1
+        res.count(f"doe-reexecution:n_processes={n_proc}")
+        flat = [tuple(r) for smp in runs for r in smp]
+        if len(set(flat)) < len(flat):
+            res.count("doe-reexecution:repeated-sample")
+        res.nontrivial(("doe-reexec", json.dumps(runs), n_proc))
+        for key, msg in doe_reexecution_oracle(out):
+            res.violate("oracle", key, msg, {"doe_reexecution": {"samples": runs, "n_processes": n_proc}})
+
+
 def replay(path: str) -> int:
     data = json.loads(open(path).read())
     rp = data["replay"]
@@ -610,6 +681,12 @@ def replay(path: str) -> int:
         for r in runs:
             print(r["label"], "budget", r["max_iter"], [(e["name"], e["kind"], e["outcome"], e["cur"], e["nonempty"]) for e in r["events"]], r.get("raised"))
             bad += oracle_run(r, r["label"])
+        for k, m in bad:
+            print("ORACLE FAILS:", k, m)
+        return 1 if bad else 0
+    if rp.get("doe_reexecution"):
+        d = rp["doe_reexecution"]
+        bad = doe_reexecution_oracle(doe_reexecution_case(d["samples"], d["n_processes"]))
         for k, m in bad:
             print("ORACLE FAILS:", k, m)
         return 1 if bad else 0
